@@ -147,6 +147,18 @@ func (vc *VC) Query(o *Obligation, prelude string, splitAsserts []T, wantModel b
 // QuerySliced is Query restricted to the assumptions whose index is in keep (nil: all).
 func (vc *VC) QuerySliced(o *Obligation, prelude string, splitAsserts []T, wantModel bool, keep map[int]bool) string {
 	var sb strings.Builder
+	if o.Cover && strings.Contains(prelude, "(assert (forall") {
+		// reachability (expected answer: sat) cannot be decided by the solvers in the presence of
+		// quantified axioms; the axioms only constrain otherwise uninterpreted functions, so they are
+		// left out of cover queries
+		var keep []string
+		for _, ln := range strings.Split(prelude, "\n") {
+			if !strings.HasPrefix(ln, "(assert (forall") {
+				keep = append(keep, ln)
+			}
+		}
+		prelude = strings.Join(keep, "\n")
+	}
 	sb.WriteString(prelude)
 	sb.WriteString("; ---- unit " + vc.Unit + " obligation " + o.Name + "\n")
 	// split cases that fix a declared constant are substituted at its declaration (solvers exploit
